@@ -241,6 +241,22 @@ theorem C20_budget_zk (ops : List ZOp) : Inv (zrun { st := St.init } ops).st := 
   rw [(zrun_st _ ops (zinv_init _)).1]
   exact C20_budget _
 
+/-- The invariant is kept from ANY state that satisfies it (not only the initial one). -/
+theorem C20_budget_from (s : St) (h : Inv s) (ops : List Op) : Inv (runOps s ops) := by
+  induction ops generalizing s with
+  | nil => exact h
+  | cons op ops ih => exact ih _ (inv_step s op h)
+
+/-- **C20 (budget across restarts of the monitor process).**  A restarted monitor process starts from an
+    empty state at the current time with the suspension table it reads back; whatever ZooKeeper-level
+    history follows (the registration-time deliveries of its new watches first), every budget stays within
+    `[0, 2·count]`. -/
+theorem C20_budget_restart (now : Int) (lw : List Nat) (ops : List ZOp) :
+    Inv (zrun { st := { St.init with now := now, lastWaited := lw } } ops).st := by
+  rw [(zrun_st _ ops (zinv_init _)).1]
+  apply C20_budget_from
+  exact ⟨by simp [St.init], by intro m hm; simp [St.init] at hm⟩
+
 /-- **C20 (re-connection is silent).**  After any ZooKeeper-level history, a re-connection leaves the
     monitor state — budgets included — exactly as it was. -/
 theorem C20_reconnect_silent (ops : List ZOp) :
